@@ -225,3 +225,106 @@ def mpo_structs(L, qd, Ds, totals=None, q_left=0):
         for _, qD in sector_layouts(L, diffs, prof, q_left=q_left, totals=totals):
             out.append((qD[-1][0], qD))
     return out
+
+
+# --------------------------------------------------------------------------------------
+# bond profiles of a charge sector
+
+def _count_maps(L, qd, q_left, total):
+    """left[i][q] = number of site strings s_0..s_{i-1} reaching bond charge q; right[i][q] = number of strings s_i..s_{L-1} from q to total."""
+    left = [{q_left: 1}]
+    for _ in range(L):
+        nxt = {}
+        for q, c in left[-1].items():
+            for s in qd:
+                nxt[q + s] = nxt.get(q + s, 0) + c
+        left.append(nxt)
+    right = [{total: 1}]
+    for _ in range(L):
+        prv = {}
+        for q, c in right[0].items():
+            for s in qd:
+                prv[q - s] = prv.get(q - s, 0) + c
+        right.insert(0, prv)
+    return left, right
+
+
+def sector_profile(L, qd, q_left, total, kind):
+    """
+    Bond charge lists of a sector: kind in
+      'one'      one charge per bond (D = 1 chain along the lexicographically first admissible path)
+      'small'    every admissible charge once, at most two per bond
+      'maximal'  sector-complete multiplicities min(#left strings, #right strings)
+      'over'     maximal multiplicities + 1 (over-complete)
+    Returns qD (list of lists) or None when the sector is empty.
+    """
+    left, right = _count_maps(L, qd, q_left, total)
+    if total not in left[L]:
+        return None
+    qD = []
+    path_q = q_left
+    for i in range(L + 1):
+        adm = sorted(q for q in left[i] if q in right[i])
+        if i == 0:
+            qD.append([q_left]); continue
+        if i == L:
+            qD.append([total]); continue
+        if kind == 'one':
+            # follow a path: choose the smallest admissible charge reachable from the previous one
+            cand = sorted(q for q in adm if any(q - s == path_q for s in qd))
+            path_q = cand[0]
+            qD.append([path_q])
+        elif kind == 'small':
+            qD.append(adm[:2])
+        elif kind in ('maximal', 'over'):
+            lst = []
+            for q in adm:
+                m = min(left[i][q], right[i][q]) + (1 if kind == 'over' else 0)
+                lst += [q] * m
+            qD.append(lst)
+        else:
+            raise ValueError(kind)
+    return qD
+
+
+def multiplicities(q):
+    m = {}
+    for x in q:
+        m[int(x)] = m.get(int(x), 0) + 1
+    return m
+
+
+def exactness_predicate(qd, qD, twosite=False):
+    """
+    Combinatorial predicate under which TDVP on this bond layout is exact (DESIGN.md, C09):
+    there is a k with bonds 1..k left-complete and bonds k+1..L-1 (two-site: k+2..L-1) right-complete.
+    """
+    L = len(qD) - 1
+    m = [multiplicities(q) for q in qD]
+    # every admissible charge of the sector must be present on every bond ("admits every vector of its sector")
+    left, right = _count_maps(L, list(qd), int(qD[0][0]), int(qD[-1][0]))
+    for i in range(L + 1):
+        adm = {q for q in left[i] if q in right[i]}
+        if set(m[i]) != adm:
+            return False
+
+    def LC(i):
+        for q, c in m[i].items():
+            l = sum(m[i - 1].get(q - s, 0) for s in qd)
+            if l != c:
+                return False
+        return True
+
+    def RC(i):
+        for q, c in m[i].items():
+            r = sum(m[i + 1].get(q + s, 0) for s in qd)
+            if r != c:
+                return False
+        return True
+
+    lc = [True] + [LC(i) for i in range(1, L)]
+    rc = [True] + [RC(i) for i in range(1, L)]
+    for k in range(0, L):
+        if all(lc[1:k + 1]) and all(rc[i] for i in range(k + (2 if twosite else 1), L)):
+            return True
+    return False
